@@ -2,7 +2,10 @@
 """Writes MANIFEST.json from checks.json + manifest_meta.json (kept in one place so the two cannot drift)."""
 import json, os, subprocess
 R = os.path.dirname(os.path.abspath(__file__))
-cfg = json.load(open(os.path.join(R, "checks.json")))
+import glob
+cfg = {}
+for f in sorted(glob.glob(os.path.join(R, "harness", "*", "check.json"))):
+    cfg.update(json.load(open(f)))
 meta = json.load(open(os.path.join(R, "manifest_meta.json")))
 props = [json.loads(l)["id"] for l in open(os.path.join(R, "properties.jsonl"))]
 checks = []
